@@ -1,5 +1,4 @@
-import Upa.Proofs.Setters
-import Upa.Proofs.Canon
+import Upa.Proofs.SettersInv
 /-
   C03 — setter histories: an invariant that implies `RecOk` and is kept by every setter gives the
   conformance of every call sequence.
@@ -31,6 +30,181 @@ theorem sampleIdna_ok : Props.IdnaOk C08.sampleIdna where
         exact ⟨toLower p, by simp, hlow p hlt hf⟩
       · cases ha
 
+/-! ## `RecOk` is necessary -/
+
+section necessary
+open Upa.Proofs.C01 (resOf)
+
+def sHttpU : List Nat := [0x68, 0x74, 0x74, 0x70]
+
+theorem schemeOv_http (u : Url) (fin : List Nat → Option Url × Url) :
+    schemeOv u fin sHttpU = fin Impl.sHttp := by
+  have h1 : isAlpha 0x68 = true := by decide
+  have h2 : ([0x74, 0x74, 0x70] : List Nat).dropWhile isSchemeChar = [] := by decide
+  have h3 : C01.Head.schemeOf 0x68 [0x74, 0x74, 0x70] = Impl.sHttp := by decide +kernel
+  simp only [sHttpU, schemeOv, h1, h2, h3, if_true]
+
+/-- a `file` record whose host text is empty but whose host is not the empty host: the protocol setter
+    "http" is ignored by the code and carried out by the Standard -/
+theorem protocol_separates (idna : Idna) (u : Url) (hf : u.isFile = true) (ht : u.hostText = [])
+    (hne : u.host ≠ some Spec.emptyHost) :
+    (Impl.setValid idna .protocol .u8 sHttpU u).1 ≠ Spec.apiSet idna .protocol .u8 sHttpU u := by
+  have hsc : u.scheme = Impl.sFile := (C01.Head.isFile_iff u).1 hf
+  have hprep : Impl.prep .u8 sHttpU = sHttpU := by decide +kernel
+  have hpin : Spec.parserInput .u8 sHttpU = sHttpU := by decide +kernel
+  -- the code
+  have hi : (Impl.setValid idna .protocol .u8 sHttpU u).1 = u := by
+    have h1 : (Impl.setValid idna .protocol .u8 sHttpU u).1 =
+        (resOf (some .schemeStart) (Impl.urlParse idna none (some .schemeStart) u (Impl.prep .u8 sHttpU))).2 := rfl
+    rw [h1, hprep, urlParse_scheme_impl, schemeOv_http]
+    have hsp : u.isSpecial = true := C08.file_special hf
+    have : implSchemeFin u Impl.sHttp = ⟨.ignored, u⟩ := by
+      unfold implSchemeFin
+      have e1 : Impl.isSpecialScheme Impl.sHttp = true := by decide
+      have e2 : Impl.isFileScheme Impl.sHttp = false := by decide
+      simp [hsp, e1, e2, hf, ht]
+    rw [this]; rfl
+  -- the Standard
+  have hs : (Spec.apiSet idna .protocol .u8 sHttpU u).scheme = Impl.sHttp := by
+    have h1 : Spec.apiSet idna .protocol .u8 sHttpU u =
+        (Spec.basicParse idna (Spec.parserInput .u8 sHttpU ++ [0x3A]) none u (some .schemeStart)).2 := rfl
+    rw [h1, hpin, basicParse_scheme_spec, schemeOv_http]
+    have hsp : Spec.isSpecial u = true := C08.file_special hf
+    have e1 : Impl.isSpecialScheme Impl.sHttp = true := by decide
+    have e2 : Impl.sHttp ≠ Impl.sFile := by decide
+    unfold specSchemeFin
+    simp only [hsp, e1, bne_self_eq_false, Bool.false_eq_true, if_false, e2, and_false, hne]
+    split <;> rfl
+  intro heq
+  rw [hi] at heq
+  rw [← heq, hsc] at hs
+  exact absurd hs (by decide)
+
+/-- a non-`file` record with a host that has an empty serialization but is not the empty host: the
+    username setter is refused by the code and carried out by the Standard -/
+theorem username_separates (idna : Idna) (u : Url) (h : Host) (hf : u.isFile = false) (hh : u.host = some h)
+    (ht : h.text = []) (hne : h ≠ Spec.emptyHost) :
+    ∃ units, (units = [0x61] ∨ units = [0x62]) ∧
+      (Impl.setValid idna .username .u8 units u).1 ≠ Spec.apiSet idna .username .u8 units u := by
+  have hcan : Impl.canHaveUsernamePasswordPort u = false := by
+    simp [Impl.canHaveUsernamePasswordPort, Url.hostText, hh, ht]
+  have hcannot : Spec.cannotHaveUsernamePasswordPort u = false := by
+    have hf' : (u.scheme == Impl.sFile) = false := hf
+    have : (some h == some Spec.emptyHost) = false := by simpa using hne
+    simp [Spec.cannotHaveUsernamePasswordPort, hh, hf', this]
+  have himpl : ∀ units, (Impl.setValid idna .username .u8 units u).1 = u := by
+    intro units; simp [Impl.setValid, hcan]
+  have hspec : ∀ units, (Spec.apiSet idna .username .u8 units u).username =
+      Spec.utf8PercentEncode Spec.userinfoSet (Spec.decode .u8 units) := by
+    intro units; simp [Spec.apiSet, hcannot]
+  have ea : Spec.utf8PercentEncode Spec.userinfoSet (Spec.decode .u8 [0x61]) = [0x61] := by decide +kernel
+  have eb : Spec.utf8PercentEncode Spec.userinfoSet (Spec.decode .u8 [0x62]) = [0x62] := by decide +kernel
+  by_cases hu : u.username = [0x61]
+  · refine ⟨[0x62], Or.inr rfl, fun heq => ?_⟩
+    have := hspec [0x62]
+    rw [← heq, himpl, hu, eb] at this
+    exact absurd this (by decide)
+  · refine ⟨[0x61], Or.inl rfl, fun heq => ?_⟩
+    have := hspec [0x61]
+    rw [← heq, himpl, ea] at this
+    exact hu this
+
+/-- on every record that violates `RecOk`, some setter call (protocol "http", or username "a" / "b")
+    separates the code from the Standard: `RecOk` is the weakest hypothesis of `setter_conforms` -/
+theorem recOk_necessary (idna : Idna) (u : Url) (h : RecOk u = false) :
+    ∃ (s : Setter) (units : List Nat), Props.UnitsOk .u8 units ∧
+      (Impl.setValid idna s .u8 units u).1 ≠ Spec.apiSet idna s .u8 units u := by
+  unfold RecOk at h
+  cases hh : u.host with
+  | none =>
+    rw [hh] at h
+    have hf : u.isFile = true := by simpa using h
+    exact ⟨.protocol, sHttpU, (by decide : ∀ x ∈ sHttpU, x < 256),
+      protocol_separates idna u hf (by simp [Url.hostText, hh]) (by rw [hh]; simp)⟩
+  | some x =>
+    rw [hh] at h
+    simp only [Bool.or_eq_false_iff, bne_eq_false_iff_eq, beq_eq_false_iff_ne] at h
+    obtain ⟨ht, hk⟩ := h
+    have hne : x ≠ Spec.emptyHost := by
+      intro he; rw [he] at hk; exact hk rfl
+    cases hf : u.isFile with
+    | true =>
+      exact ⟨.protocol, sHttpU, (by decide : ∀ x ∈ sHttpU, x < 256),
+        protocol_separates idna u hf (by simp [Url.hostText, hh, ht]) (by rw [hh]; simpa using hne)⟩
+    | false =>
+      obtain ⟨units, hu, hd⟩ := username_separates idna u x hf hh ht hne
+      refine ⟨.username, units, ?_, hd⟩
+      rcases hu with rfl | rfl
+      · exact (by decide : ∀ x ∈ ([0x61] : List Nat), x < 256)
+      · exact (by decide : ∀ x ∈ ([0x62] : List Nat), x < 256)
+
+end necessary
+
+/-- An IDNA parameter that satisfies `IdnaOk` but returns the empty string on non-ASCII input without
+    forbidden ASCII characters: shows that `IdnaOk` alone does not keep the setters inside `RecOk`. -/
+def emptyIdna : Idna := fun s =>
+  if s.all (fun c => decide (c < 0x80)) then some (s.map toLower)
+  else if s.any (fun c => decide (c < 0x80) && Spec.forbiddenDomain c) then none
+  else some []
+
+theorem emptyIdna_ok : Props.IdnaOk emptyIdna where
+  ascii := by
+    intro s _ hs _
+    unfold emptyIdna
+    rw [if_pos]
+    rw [List.all_eq_true]
+    intro c hc
+    have := C08.asciiDomainChar_lt c (hs c hc)
+    simpa using this
+  persist := by
+    intro pre p post _ hlt _ hf _ _ a ha
+    have hlow : ∀ c, c < 128 → Spec.forbiddenDomain c = true → Spec.forbiddenDomain (toLower c) = true := by
+      decide
+    unfold emptyIdna at ha
+    split at ha
+    · simp only [Option.some.injEq] at ha
+      subst ha
+      rw [List.any_eq_true]
+      exact ⟨toLower p, by simp, hlow p hlt hf⟩
+    · rw [if_pos] at ha
+      · cases ha
+      · rw [List.any_eq_true]
+        exact ⟨p, by simp, by simp [hf]; omega⟩
+
+/-- with `emptyIdna` the host parser returns a domain with an empty serialization for "é" -/
+theorem emptyIdna_host : Impl.parseHost emptyIdna [0xE9] false = some ⟨.domain, []⟩ := by
+  have pd : Impl.percentDecode [0xE9] = [0xC3, 0xA9] := by
+    simp [Impl.percentDecode, Impl.percentDecodeAux, Impl.encodeUtf8Char]
+  rw [C08.parseHost_domain _ _ _ (by decide)]
+  have hf : C08.fastPath [0xE9] = none := by decide +kernel
+  rw [hf]
+  simp only [C08.idnaPath, pd]
+  decide +kernel
+
+/-- canonical records satisfy the invariant -/
+theorem canon_recInv (u : Url) (h : Impl.Canon u = true) : RecInv u = true := by
+  obtain ⟨ha, _, _, _⟩ := (C08.canon_iff u).1 h
+  unfold RecInv
+  cases hh : u.host with
+  | none =>
+    simp only [Bool.not_eq_true']
+    cases hs : u.isSpecial with
+    | false => rfl
+    | true =>
+      cases hf : u.isFile with
+      | false =>
+        obtain ⟨h', hh', _⟩ := ha.spHost hs hf
+        rw [hh] at hh'; cases hh'
+      | true =>
+        obtain ⟨h', hh'⟩ := ha.fileHost hf
+        rw [hh] at hh'; cases hh'
+  | some h' =>
+    have hk := ha.host h' hh
+    obtain ⟨k, t⟩ := h'
+    cases t with
+    | nil => cases k <;> simp_all [Impl.hostOk, hostGood]
+    | cons a t => simp [hostGood]
+
 /-- histories, for any invariant `J` that implies `RecOk` and is kept by the setters -/
 theorem history_of_inv {idna : Idna} (hI : Props.IdnaOk idna) (J : Url → Prop)
     (hJ : ∀ u, J u → RecOk u = true)
@@ -61,6 +235,9 @@ theorem unitsOk_u8_calls (calls : List (Setter × Enc × List Nat))
   subst h1
   exact h2
 
+#print axioms recOk_necessary
+#print axioms emptyIdna_ok
+#print axioms canon_recInv
 #print axioms sampleIdna_ok
 #print axioms history_of_inv
 end Upa.Proofs.C03
